@@ -163,7 +163,7 @@ Definition spec_merkle (w : world) : bool :=
                             end
                 | None => true
                 end
-        end) (s_outputs s)
+        end) (s_outputs s ++ s_inputs s)   (* the role of the artifact does not matter either *)
     | None => true
     end) (w_stages w).
 
